@@ -54,6 +54,10 @@ type Script struct {
 	// network level (connection reset). The cancelled call still returns promptly, nobody else is disturbed and
 	// the session stays usable; only the peer's handler cannot be expected to hear of it.
 	NoticeLost bool `json:"notice_lost,omitempty"`
+	// NoticeHangs (with NoticeLost; also on the legacy SSE link): instead of failing at once, the POST that carries
+	// the notice gets no answer at all and only ends when the SDK gives it up (its own 5 s bound). Every step
+	// is followed by 6 s of virtual time, so that the rest of the script meets a writer that is free again.
+	NoticeHangs bool `json:"notice_hangs,omitempty"`
 }
 
 func genScript(rt *rapid.T) Script {
@@ -64,8 +68,11 @@ func genScript(rt *rapid.T) Script {
 		links = append(links, wire.Config{Kind: wire.Stateful, JSON: true})
 	}
 	s.Link = rapid.SampledFrom(links).Draw(rt, "link")
-	if s.Dir == "c2s" && s.Link.Kind == wire.Stateful {
+	if s.Dir == "c2s" && (s.Link.Kind == wire.Stateful || s.Link.Kind == wire.SSE) {
 		s.NoticeLost = rapid.IntRange(0, 3).Draw(rt, "notice_lost") == 0
+		// (On the legacy SSE link a POST that fails at the network level is a failed write - the connection is
+		// broken, which is C01's subject -, so there the notice can only go unanswered.)
+		s.NoticeHangs = s.NoticeLost && (s.Link.Kind == wire.SSE || rapid.Bool().Draw(rt, "notice_hangs"))
 	}
 	n := rapid.IntRange(2, 24).Draw(rt, "n")
 	calls := 0
@@ -244,11 +251,18 @@ func runInBubble(s Script) (res vt.Result) {
 			b, _ := io.ReadAll(rc)
 			rc.Close()
 			if bytes.Contains(b, []byte(`"notifications/cancelled"`)) {
+				if s.NoticeHangs {
+					<-r.Context().Done() // no answer ever comes; the request ends when its sender gives it up
+					return r.Context().Err()
+				}
 				return errors.New("read tcp: connection reset by peer")
 			}
 			return nil
 		}
 		res.Class("cancellation_notices_cannot_be_delivered")
+		if s.NoticeHangs {
+			res.Class("cancellation_notices_get_no_answer_until_given_up")
+		}
 	}
 	if err != nil {
 		res.Failf("harness: %v", err)
@@ -527,6 +541,16 @@ func runInBubble(s Script) (res vt.Result) {
 		check(i)
 		if len(res.Violations) > 0 {
 			return finish(res, s, &desc, w, cancelledInflight, sawBlockCancel)
+		}
+		if s.NoticeHangs {
+			// deadlines are at most 3 s away and an unanswered notice is given up after 5 s: after 9 s the
+			// client's writer is free again, whatever this step set in motion
+			time.Sleep(9 * time.Second)
+			synctest.Wait()
+			check(i)
+			if len(res.Violations) > 0 {
+				return finish(res, s, &desc, w, cancelledInflight, sawBlockCancel)
+			}
 		}
 	}
 	// un-park the dispatcher, then: all never-cancelled calls still answer correctly, and the session is usable both ways.
